@@ -83,7 +83,10 @@ def attr_j(v):
     if isinstance(v, str):
         return ["s", enc(v)]
     if hasattr(v, "phil_type"):
-        return ["t", enc(str(v))]
+        try:
+            return ["t", enc(str(v))]
+        except Exception as e:       # a type object that cannot print itself: an observation, not a harness crash
+            return ["t_unprintable", type(e).__name__]
     return ["other", type(v).__name__]
 
 
